@@ -2,6 +2,7 @@
 from mirlib import *
 from proto import *
 import io_rules
+import cache_rules
 
 TECHNIQUE = "whole-crate dataflow rule 'no io::Result / e57::Result is dropped' (one named exception), raw read/write transfer discipline (loop + zero test + advance), success-implies-flushed exit rule, error-mapping decision tables of the Converter trait"
 EXPLANATION = (
@@ -21,6 +22,7 @@ def run(ctx):
     ctx.rule("R3", "finalize_customized_xml returns the result of the final flush; PagedWriter::flush forwards writer.flush()")
     ctx.rule("R5", "an Err result that was inspected (?, match, is_err) never leads to a successful return of the inspecting function")
     ctx.rule("R4", "Converter::{read,write,invalid,internal}_err map Err(e)/None to the matching Error variant with source = Some(e)/None")
+    ctx.rule("R6", "a failed device read leaves no stale page behind: every clobber of the page buffer is dominated by page_num = None and a page is published only on the checksum-equal edge, for the page that was sought (shared with C07-R2/R3)")
     for cfg in ["lib", "lib_crc32c"]:
         prog, info = load_program(cfg, "e57")
         ctx.configs[cfg] = info
@@ -30,5 +32,7 @@ def run(ctx):
         io_rules.success_implies_flushed(ctx, prog, "R3")
         io_rules.converter_tables(ctx, prog, "R4")
         io_rules.no_error_turned_into_success(ctx, prog, "R5")
+        cache_rules.invalidate_on_clobber(ctx, prog, cache_rules.PR, rule="R6")
+        cache_rules.validate_before_publish(ctx, prog, cache_rules.PR, "table" if cfg == "lib" else "crate", rule="R6")
     ctx.cfg = None
     io_rules.controls(ctx)
